@@ -72,6 +72,10 @@ func c06check1(p *AllProject, r *rbT, files []string, srcs [][]byte, oi int, src
 		// the position-based resolver mis-binds the query position itself, or the name occurs in the initialiser
 		// of a local statement that declares it (the traversal attributes that occurrence to the new local)
 		class = prefix + "-inherits-C05"
+	} else if o.decl < 0 && verifParamOr("EDITED", 0) == 2 {
+		// known defect: the occurrences of a global are looked up in the saved analysis of the defining file
+		// while the definition comes from the analysis of the edited buffer
+		class = prefix + "-global-in-edited-file"
 	} else if o.decl < 0 && r.globalMixedDepth(o.name) {
 		class = prefix + "-global-mixed-depth"
 	} else if r.isColonReceiver(o.name) {
